@@ -188,12 +188,23 @@ def build(unit, extra_edits=None):
             if piece != '':
                 terms.append('"%s"@' % piece)
             if k < site['nargs']:
-                terms.append('a%d.tv()' % k)
-        parts.append('// ==== format! site %s (T14): literal %s; contract generated from the literal (std::fmt `{}` semantics ASSUMED)\n' % (site['name'], site['literal']))
-        parts.append('#[verifier::external_body]\nfn %s%s(%s) -> (r: String)\n    ensures r@ == %s\n{ unimplemented!() }\n' % (
-            site['name'], ('<' + ', '.join('A%d: Txt' % k for k in range(site['nargs'])) + '>') if site['nargs'] else '',
-            ', '.join('a%d: A%d' % (k, k) for k in range(site['nargs'])), ' + '.join(terms) if terms else 'Seq::<char>::empty()'))
-        prov['outlines'].append({'id': site['name'], 'decl': 'format! site, literal ' + site['literal'], 'body': 'format!(%s, ..)' % site['literal'], 'compiled': False})
+                terms.append('a%d.%s()' % (k, 'dv' if (site.get('debug') or [False] * 99)[k] else 'tv'))
+        if site.get('newline'):
+            terms.append('"\\n"@')
+        generics = ('<' + ', '.join('A%d: Txt' % k for k in range(site['nargs'])) + '>') if site['nargs'] else ''
+        params = ', '.join('a%d: A%d' % (k, k) for k in range(site['nargs']))
+        text = ' + '.join(terms) if terms else 'Seq::<char>::empty()'
+        parts.append('// ==== %s site %s (T14): literal %s; contract generated from the literal (std::fmt `{}` semantics ASSUMED)\n'
+                     % ('write!' if site.get('writer') else 'format!', site['name'], site['literal'].replace('\n', ' ')))
+        if site.get('writer'):
+            parts.append('#[verifier::external_body]\nfn %s%s(w: &mut WriteSink%s) -> (r: std::io::Result<()>)\n    ensures r is Ok ==> final(w)@ == old(w)@ + %s\n{ unimplemented!() }\n'
+                         % (site['name'], generics, (', ' + params) if params else '', text if terms else 'Seq::<char>::empty()'))
+        else:
+            parts.append('#[verifier::external_body]\nfn %s%s(%s) -> (r: String)\n    ensures r@ == %s\n{ unimplemented!() }\n' % (site['name'], generics, params, text))
+        # the literal's pieces as ghost constants: a proof can name the incidental text around the part a property speaks about
+        for k, piece in enumerate(site['pieces']):
+            parts.append('pub open spec fn %s_p%d() -> Seq<char> { %s }\n' % (site['name'], k, ('"%s"@' % piece) if piece != '' else 'Seq::<char>::empty()'))
+        prov['outlines'].append({'id': site['name'], 'decl': 'format site, literal ' + site['literal'], 'body': '%s(%s, ..)' % ('write!' if site.get('writer') else 'format!', site['literal']), 'compiled': False})
     if unit.epilogue:
         parts.append('// ==== unit epilogue (ghost lemmas)\n' + unit.epilogue + '\n')
     parts.append('} // verus!\nfn main() {}\n')
